@@ -80,8 +80,10 @@ pub fn gen_probe_spec(c: &mut Chooser, allow_dispose: bool) -> ProbeSpec {
             let k = c.choose(5);
             let base = if c.chance(1, 2) { React::Pull } else { React::Nothing };
             let mut policy = vec![base; k];
-            policy.push(if c.chance(2, 3) { React::Terminate } else { React::Error });
-            ProbeSpec { policy, rest: base, pull_cap: 1000 }
+            policy.push(
+                [React::Terminate, React::Terminate, React::Error, React::PullTerminate, React::PullError][c.choose(5)],
+            );
+            ProbeSpec { policy, rest: base, pull_cap: 1000, attach: None }
         },
         _ => {
             let n = 1 + c.choose(6);
@@ -98,14 +100,16 @@ pub fn gen_probe_spec(c: &mut Chooser, allow_dispose: bool) -> ProbeSpec {
                         React::Pull2,
                         React::Terminate,
                         React::Error,
-                    ][c.choose(9)]
+                        React::PullTerminate,
+                        React::PullError,
+                    ][c.choose(11)]
                 } else {
                     [React::Nothing, React::Pull, React::Pull][c.choose(3)]
                 };
                 policy.push(r);
             }
             let rest = [React::Nothing, React::Pull][c.choose(2)];
-            ProbeSpec { policy, rest, pull_cap: 1000 }
+            ProbeSpec { policy, rest, pull_cap: 1000, attach: None }
         },
     }
 }
@@ -261,6 +265,17 @@ pub fn gen_case(c: &mut Chooser, op: &str, prop: &str) -> CaseSpec {
         fix_tree_lens(node, &mut lens, &mut 0);
     }
     let mut probe_specs: Vec<ProbeSpec> = (0..n_probes).map(|_| gen_probe_spec(c, !credit)).collect();
+    if let Topo::Share(n) = &topo {
+        // now and then a sink attaches another sink from inside one of its handlers
+        if *n >= 2 && !credit && c.chance(1, 3) {
+            let i = c.choose(*n);
+            let mut j = c.choose(*n);
+            if j == i {
+                j = (i + 1) % *n;
+            }
+            probe_specs[i].attach = Some((c.choose(3) as u8, 1 + c.choose(3), j));
+        }
+    }
     if let Topo::FromIter(None) = &topo {
         for p in probe_specs.iter_mut() {
             p.pull_cap = 5 + c.choose(30);
